@@ -329,7 +329,9 @@ def semi_singleton_metaclass(hashfunc: Callable | None = None) -> type:
             :return: A hash of the arguments.
             """
             jwargs = json.dumps(kwargs, sort_keys=True)
-            return hash((args, jwargs))
+            # the tuple itself is the key: different arguments may well share
+            # a hash() value (e.g. -1 and -2), but never compare equal
+            return (args, jwargs)
 
     class _SemiSingleton(type):
         """
@@ -340,7 +342,9 @@ def semi_singleton_metaclass(hashfunc: Callable | None = None) -> type:
         _SemiSingleton__semisingleton_hashfunc = hashfunc
 
         def __call__(cls, *args, **kwargs):
-            key = hashfunc(args, kwargs)
+            # instances belong to the class that was called, not to every
+            # class that happens to use this metaclass (or a subclass)
+            key = (cls, hashfunc(args, kwargs))
             if key not in cls._SemiSingleton__semisingleton_instance_map:
                 cls._SemiSingleton__semisingleton_instance_map[key] = super(
                     _SemiSingleton, cls
@@ -398,7 +402,7 @@ def add_mapping(obj: object, *args, **kwargs):
     hashid = hashfunc(args, kwargs)
 
     # store the hashed identifier in the metaclass map of hashes to instances
-    cls._SemiSingleton__semisingleton_instance_map[hashid] = obj  # type: ignore
+    cls._SemiSingleton__semisingleton_instance_map[(type(obj), hashid)] = obj  # type: ignore
 
 
 def drop_semi_singleton_mapping(cls: type, *args, **kwargs):
@@ -449,7 +453,7 @@ def drop_semi_singleton_mapping(cls: type, *args, **kwargs):
     hashfunc = mcls._SemiSingleton__semisingleton_hashfunc  # type: ignore
     hashid = hashfunc(args, kwargs)
 
-    del mcls._SemiSingleton__semisingleton_instance_map[hashid]
+    del mcls._SemiSingleton__semisingleton_instance_map[(cls, hashid)]
 
 
 def check_semi_singleton_entry_exists(cls: type, *args, **kwargs) -> object:
@@ -494,8 +498,8 @@ def check_semi_singleton_entry_exists(cls: type, *args, **kwargs) -> object:
     hashfunc = mcls._SemiSingleton__semisingleton_hashfunc  # type: ignore
     hashid = hashfunc(args, kwargs)
 
-    if hashid in mcls._SemiSingleton__semisingleton_instance_map:  # type: ignore
-        return mcls._SemiSingleton__semisingleton_instance_map[hashid]  # type: ignore
+    if (cls, hashid) in mcls._SemiSingleton__semisingleton_instance_map:  # type: ignore
+        return mcls._SemiSingleton__semisingleton_instance_map[(cls, hashid)]  # type: ignore
 
     return None
 
@@ -530,7 +534,8 @@ def get_all_semi_singleton_instances(cls: type) -> Generator[object]:
     :param cls: Data type to check singleton instances for.
     :return: Generator expression yielding semi-singleton instances.
     """
-    yield from type(cls)._SemiSingleton__semisingleton_instance_map.values()  # type: ignore
+    instmap = type(cls)._SemiSingleton__semisingleton_instance_map  # type: ignore
+    yield from [inst for (owner, _), inst in instmap.items() if owner is cls]
 
 
 def clear_semi_singleton(cls: type) -> None:
@@ -565,4 +570,9 @@ def clear_semi_singleton(cls: type) -> None:
 
     :param cls: Class to clear semisingleton states from.
     """
-    type(cls)._SemiSingleton__semisingleton_instance_map = {}  # type: ignore
+    mcls = type(cls)
+    mcls._SemiSingleton__semisingleton_instance_map = {  # type: ignore
+        key: inst
+        for key, inst in mcls._SemiSingleton__semisingleton_instance_map.items()  # type: ignore
+        if key[0] is not cls
+    }
